@@ -6,4 +6,5 @@ import UF.Props.C19
 -- integration group J: C13/C14/C19 on the engine models
 import UF.Props.C13Engine
 import UF.Props.C14Engine
+import UF.Props.C14Sections
 import UF.Props.C19Engine
